@@ -277,12 +277,18 @@ func (n *Normer) CondOf(v ssa.Value) *Cond {
 				env := map[ssa.Value]Poly{}
 				for i, p := range cal.Params {
 					if i < len(x.Common().Args) {
+						if _, isStruct := p.Type().Underlying().(*types.Struct); isStruct {
+							continue
+						}
 						env[p] = n.Norm(x.Common().Args[i])
 					}
 				}
 				n.env = append(n.env, env)
 				n.depth++
+				savedCtx := n.Ctx
+				n.Ctx = append(append([]ssa.CallInstruction{}, savedCtx...), x)
 				c := FuncTruthCond(n, cal)
+				n.Ctx = savedCtx
 				n.depth--
 				n.env = n.env[:len(n.env)-1]
 				return c
